@@ -51,7 +51,7 @@ def live_case(spec, log):
         got_sigterm.append(time.monotonic())
         log.ev('caller_signalled', sig='SIGTERM')
     _signal.signal(_signal.SIGTERM, on_sigterm)
-    target, args = {'slowres': ('partial_on_terminate', [md, 0.4]), 'coop': ('py_loop', [md, None]), 'swallow': ('swallow_loop', [md]), 'sleep': ('sleep_c', [40]), 'gil': ('hold_gil', [25]), 'stopped': ('py_loop', [md, None])}[beh]
+    target, args = {'linger': ('return_and_linger', [md, 60]), 'linger-stopped': ('return_and_linger', [md, 60, 0.5]), 'slowres': ('partial_on_terminate', [md, 0.4]), 'coop': ('py_loop', [md, None]), 'swallow': ('swallow_loop', [md]), 'sleep': ('sleep_c', [40]), 'gil': ('hold_gil', [25]), 'stopped': ('py_loop', [md, None])}[beh]
     if pers:
         w = cls(getattr(vtargets, target), **kw)
         w.enqueue(*args)
@@ -62,7 +62,7 @@ def live_case(spec, log):
     log.ev('created', pid=pid, own_process=own)
     # let the target get going (marker or settle)
     t0 = time.monotonic()
-    while time.monotonic() - t0 < 5 and beh in ('coop', 'swallow', 'stopped', 'slowres') and not os.path.exists(os.path.join(md, 'entered')):
+    while time.monotonic() - t0 < 5 and beh in ('coop', 'swallow', 'stopped', 'slowres', 'linger', 'linger-stopped') and not os.path.exists(os.path.join(md, 'entered')):
         time.sleep(0.01)
     time.sleep(spec.get('settle', 0.3))
     if beh == 'stopped':
@@ -140,6 +140,11 @@ def live_matrix(tier):
             for t in (0, 0.05, 0.2):
                 for force in (True, False):
                     jobs.append(dict(cls=cls, behaviour='slowres', t=t, force=force, ops=[dict(op='terminate', timeout=t, force=force), dict(op='wait', timeout=2), dict(op='is_alive'), dict(op='terminate', timeout=0, force=True)]))
+            if not cls.startswith('Persistent'):
+                # the work is done and reported, but the child process lingers (and, in the second variant, gets stopped)
+                for beh in ('linger', 'linger-stopped'):
+                    jobs.append(dict(cls=cls, behaviour=beh, t=0.3, force='lingering', settle=(0.3 if beh == 'linger' else 1.0),
+                                     ops=[dict(op='wait', timeout=0.3), dict(op='wait', timeout=0), dict(op='is_alive'), dict(op='terminate', timeout=0.2, force=True), dict(op='wait', timeout=0)]))
             if 'Remote' in cls:
                 # remote_timeout=None: the remote side is bounded by the overall timeout alone
                 for beh in ('swallow', 'sleep', 'coop'):
